@@ -1165,6 +1165,7 @@ def size_read_under_lock():
     return bool(reads) and all(id(n) in inside for n in reads)
 
 
+WAIT_PRE = {"ioctl": (90, 30, 720, 660, 8, 22, 720, 660), "query": (90, 30, 0, 0, 8, 22, 720, 660)}
 WAIT_WINS = {"ioctl": ((80, 24, 800, 480, 10, 20, 800, 480), (100, 40, 1200, 1000, 12, 25, 1200, 1000),
                        (120, 50, 1080, 900, 9, 18, 1080, 900)),
              "query": ((80, 24, 0, 0, 10, 20, 800, 480), (100, 40, 0, 0, 12, 25, 1200, 1000),
@@ -1178,14 +1179,17 @@ def waiter_scenario(path):
     A, B, C = WAIT_WINS[path]
     term = dict(RACE_TERM)
     reset_all()
-    vt.reset(term, A)
+    vt.reset(term, WAIT_PRE[path])
+    first = do_op(("gcs",))  # an earlier successful lookup at another size: the cache is not empty
+    vt.win = A
     SigLock.waiting = threading.Event()
     utils._cell_size_lock = SigLock()
-    res, ev = {}, {n: threading.Event() for n in ("T1", "T2")}
+    res, ev, at_return = {}, {n: threading.Event() for n in ("T1", "T2")}, {}
     try:
         def run(name):
             def body():
                 r = _real_gcs()
+                at_return[name] = vt.win  # the terminal as it is when the call returns
                 res[name] = "none" if r is None else "size %d %d" % tuple(r)
                 ev[name].set()
             return threading.Thread(target=body, daemon=True)
@@ -1204,7 +1208,8 @@ def waiter_scenario(path):
             ev["T2"].wait(0.005)
         else:
             raise RuntimeError("T2 neither finished nor blocked")
-        vt.win = C  # a resize while T2 waits for the lock
+        t2_waited = not ev["T2"].is_set()
+        vt.win = C  # a resize while T2 waits for the lock (or after it returned without waiting)
         PAUSE[0]["go"].set()
         for n in ("T1", "T2"):
             if not ev[n].wait(20):
@@ -1217,8 +1222,15 @@ def waiter_scenario(path):
     finally:
         PAUSE[0] = None
         reset_all()
-    vals = [res["T1"], res["T2"]] + checks
+    vals = [first, res["T1"], res["T2"]] + checks
     fail = None
+    want2 = fresh_table(term, at_return["T2"], False, True)["gcs"]
+    if res["T2"] != want2:
+        fail = Failure("lock_wait_race/stale-while-busy",
+                       f"[{path}] get_cell_size() called while another thread's lookup held `_cell_size_lock` "
+                       f"({'waited' if t2_waited else 'did NOT wait'}) returned {res['T2']} with the terminal at "
+                       f"{at_return['T2'][:4]}; a fresh computation gives {want2} (an earlier lookup at {WAIT_PRE[path][:2]} "
+                       f"had left {first} in the cache)", extra=dict(values=vals))
     for w, got in zip((B, C, A), checks):
         want = fresh_table(term, w, False, True)["gcs"]
         if got != want and fail is None:
@@ -1772,7 +1784,8 @@ class C15(Property):
             yield Case(f"handover {tg}", dict(toggle=tg), "handover", True)
         for path in ("ioctl", "query"):
             A, B, C = WAIT_WINS[path]
-            line = "waiter %s %s %s %s" % (term_line(RACE_TERM), " ".join(map(str, A)), " ".join(map(str, B)), " ".join(map(str, C)))
+            line = "waiter %s %s %s %s %s" % (term_line(RACE_TERM), " ".join(map(str, WAIT_PRE[path])), " ".join(map(str, A)),
+                                              " ".join(map(str, B)), " ".join(map(str, C)))
             yield Case(line, dict(path=path), "waiter", True)
         isteps = cached_inval_steps()
         for fname in ("nv", "co"):
@@ -1902,8 +1915,9 @@ class C15(Property):
             f = waiter_scenario(path)[1]
             if f:
                 A, B, C = WAIT_WINS[path]
-                f.case = Case("waiter %s %s %s %s" % (term_line(RACE_TERM), " ".join(map(str, A)), " ".join(map(str, B)),
-                                                      " ".join(map(str, C))), dict(path=path))
+                f.case = Case("waiter %s %s %s %s %s" % (term_line(RACE_TERM), " ".join(map(str, WAIT_PRE[path])),
+                                                         " ".join(map(str, A)), " ".join(map(str, B)), " ".join(map(str, C))),
+                              dict(path=path))
                 out.append(f)
         if out:
             return out
